@@ -421,3 +421,170 @@ def check_allocation_mark(ctx, F, rule="E-FREELIST.mark"):
                                 % ("" if key else " outside get_slot_from_shared") if not key else
                                 "assigns the allocation mark a value that is not computed by an addition (the mark must only grow)"))
     return n
+
+
+def check_return_links(ctx, F, rule="E-FREELIST.link"):
+    """`return_preallocated` (session end): the unused rest of the thread's chunk is linked into one free list --
+    slot k points to slot k + 1 (ids are slot indices + TERMINALS), the *last* slot of the chunk continues with the
+    thread's own free list -- and the head `start + TERMINALS` is published; with nothing left of the chunk the thread's
+    list is published as it is; an empty list (0) is not published; the node-count delta is moved out.  The closure is
+    interpreted from HIR on a model (chunk size 8, 2 terminals) for a partially used chunk, a fully used chunk with and
+    without a thread-local list."""
+    from lib.interp import Interp, Opaque, StructVal, Unrecognised, enumerate_runs, Enum
+    import itertools
+    import tables
+    fids = [f for f in F.hir if f.startswith("oxidd_manager_index::manager::") and f.endswith("::return_preallocated")]
+    if not ctx.anchor(rule, "return_preallocated", len(fids) == 1):
+        return 0
+    fid = fids[0]
+    CH = 8
+
+    class Cell:
+        def __init__(self, v):
+            self.v = v
+
+    class Obj:
+        def __init__(self, **kw):
+            self.__dict__.update(kw)
+
+    class D(tables.DDDomain):
+        finite_loops = True
+
+        def __init__(self):
+            super().__init__(F, tables.BDD)
+
+        def const(self, it, e):
+            if (e.get("n") or "").endswith("CHUNK_SIZE"):
+                return CH
+            if (e.get("n") or "").endswith("u32::MAX"):
+                return 2 ** 32 - 1
+            if (e.get("n") or "").endswith("LOCAL_STORE_STATE"):
+                return ("tls", self.local)
+            return super().const(it, e)
+
+        def call_value(self, it, fv, args):
+            if isinstance(fv, tuple) and fv and fv[0] == "closure":
+                _, ce, cenv = fv
+                env = dict(cenv)
+                for p, a in zip(ce.get("params", []), args):
+                    it.match(p, a, env)
+                return it.ev(ce["body"], env)
+            raise Unrecognised("call of %r" % (fv,))
+
+        def field(self, it, v, n):
+            if isinstance(v, Obj) and hasattr(v, n):
+                return getattr(v, n)
+            return None
+
+        def field_assign(self, it, base, n, v):
+            if isinstance(base, Obj):
+                setattr(base, n, v)
+                return True
+            return False
+
+        def iterate(self, it, v):
+            if isinstance(v, (list, tuple)):
+                return list(v)
+            if isinstance(v, itertools.islice) or hasattr(v, "__next__"):
+                return list(itertools.islice(v, 100))
+            return None
+
+        def binop(self, it, o, l, r):
+            return super().binop(it, o, l, r)
+
+        def method(self, it, m, e, env):
+            nm = m.rsplit("::", 1)[-1]
+            recv = it.recv(e, env)
+            if isinstance(recv, tuple) and recv and recv[0] == "tls" and nm == "with":
+                (clo,) = it.args(e, env)
+                return self.call_value(it, clo, [recv[1]])
+            if isinstance(recv, Cell):
+                if nm == "get":
+                    return recv.v
+                if nm == "set":
+                    (x,) = it.args(e, env)
+                    recv.v = x
+                    return ()
+                if nm == "replace":
+                    (x,) = it.args(e, env)
+                    old, recv.v = recv.v, x
+                    return old
+            if isinstance(recv, Obj) and nm == "get" and hasattr(recv, "next_free") and not hasattr(recv, "node_count"):
+                return recv           # UnsafeCell::get on a slot
+            if isinstance(recv, Obj) and nm == "lock":
+                return recv
+            if isinstance(recv, list):
+                if nm == "push":
+                    (x,) = it.args(e, env)
+                    recv.append(x)
+                    return ()
+                if nm in ("iter", "iter_mut", "into_iter"):
+                    return list(recv)
+                if nm == "zip":
+                    (o,) = it.args(e, env)
+                    if isinstance(o, StructVal) and o.path.endswith("RangeFrom"):
+                        return list(zip(recv, itertools.count(o.fields["start"])))
+                    ol = self.iterate(it, o)
+                    return list(zip(recv, ol))
+                if nm == "len":
+                    return len(recv)
+            return super().method(it, m, e, env)
+
+    orig_index = Interp.ev_index
+
+    holder = {}
+
+    def mk(oracle):
+        d = D()
+        d.local = holder["local"]
+        return Interp(F, d, oracle)
+    fails = []
+    n = 0
+    for start, lnf, delta in ((5, 99, 3), (5, 0, 0), (8, 99, -2), (8, 0, 1), (16, 0, 0)):
+        slots = [Obj(next_free=-1) for _ in range(3 * CH)]
+        local = Obj(initialized=Cell(start), next_free=Cell(lnf), node_count_delta=Cell(delta), current_store=Cell(0))
+        shared = Obj(next_free=[], node_count=100, allocated=0)
+        holder["local"] = local
+
+        def go(it):
+            return it.call_fn(fid, [slots, shared, 2])
+        # slicing `slots[a..b]`
+        def ev_index(self, e, env):
+            v = self.ev(e["e"], env)
+            i = self.ev(e["i"], env)
+            if isinstance(v, list) and isinstance(i, StructVal) and i.path.endswith("Range"):
+                return v[i.fields["start"]:i.fields["end"]]
+            return orig_index(self, e, env)
+        Interp.ev_index = ev_index
+        try:
+            for trace, (status, val) in enumerate_runs(mk, go):
+                n += 1
+                sit = "initialized = %d, local free list = %d, delta = %d (chunk size %d, 2 terminals)" % (start, lnf, delta, CH)
+                if status != "ok":
+                    fails.append("%s: %s %s" % (sit, status, val))
+                    continue
+                got = [s.next_free for s in slots]
+                want = [-1] * len(slots)
+                if start % CH != 0:
+                    end = (start // CH + 1) * CH
+                    for k in range(start, end - 1):
+                        want[k] = k + 1 + 2
+                    want[end - 1] = lnf
+                    pub = [start + 2]
+                else:
+                    pub = [lnf] if lnf != 0 else []
+                if got != want:
+                    fails.append("%s: slot links %r, expected %r (each slot points to the next one's id, the chunk's last slot to "
+                                 "the thread's own list)" % (sit, {k: v for k, v in enumerate(got) if v != -1},
+                                                            {k: v for k, v in enumerate(want) if v != -1}))
+                if shared.next_free != pub:
+                    fails.append("%s: published free lists %r, expected %r" % (sit, shared.next_free, pub))
+                if shared.node_count != 100 + delta or local.node_count_delta.v != 0:
+                    fails.append("%s: node count %r / remaining delta %r, expected %r / 0" % (sit, shared.node_count, local.node_count_delta.v, 100 + delta))
+                if shared.allocated != 0:
+                    fails.append("%s: the allocation mark was moved" % sit)
+        finally:
+            Interp.ev_index = orig_index
+    ctx.ob(rule, rule, not fails and n >= 5, "return_preallocated (%s): %s" % (F.where(fid), " || ".join(fails[:2]) if fails else
+                                                                             "links the rest of the chunk in front of the thread's list and publishes the head"))
+    return n
